@@ -11,6 +11,9 @@ CHECKS = {
              text="All interleavings of 1-3 logging goroutines, the background flusher and FlushLogger, including both outcomes of every select with several ready cases, on the real rogger code; every entry logged before the flush must be written exactly once, in order, as one write, before FlushLogger returns.",
              note="Virtual clock; interleavings at channel/mutex/context operations of the instrumented package.", ref="§5 C20"),
 }
+CHECKS["C07"] = dict(engine="govm", technique="stateless model checking: every partition of the byte stream (environment choices) x schedules within a deviation bound, on the real receive loops over an in-memory TCP",
+             text="The real tcpHandler.recv and connection.recv are run on an in-memory TCP connection; every composition of 1-3 packet streams into chunks, illegal lengths at every position, max-length boundaries, chunk menus around the 4096-byte read buffer, worker pool and a parallel connection; deliveries compared with what was sent, connection state after illegal lengths.",
+             note="vnet models TCP as seen through net.Conn (ordered reliable stream, FIN, deadlines); partitions exact because the peer waits for the reader to drain; schedules: default + all with <=1/2 deviations for selected partitions; no fingerprint pruning.", ref="§5 C07")
 NOT_YET = {}
 ALL = ["C%02d" % i for i in range(1, 21)]
 
